@@ -334,26 +334,37 @@ def gen_k3(rng, big, q="K"):
     return case_lines(q, d, rng.randint(1, len(P)), ref, P)
 
 def gen_shifted(rng, big):
-    """any of the other cases translated by a negative offset (negative objective values; query G instead of H so that
-    the harness does not enter HypervolumeCalculatorMDHOY, which is exercised with negative values in its own stream)"""
+    """any of the other cases translated by a negative offset (negative objective values, in particular -1: the value
+    HypervolumeCalculatorMDHOY used as 'no split bound yet' until /repo commit 589fd5bd)"""
     while True:
         c = gen_case(rng, big, rng.choice(["R", "H", "H", "K", "K3", "S", "D"]))
         t = c[0].split(); q, d = t[1], int(t[2])
-        if q == "K" and d == 4: continue          # MD contributions in 4 objectives go through HOY
         off = rng.choice([-1, -2, -3, -7])
         out = []
         for l in c:
             u = l.split()
-            if u[0] == "C": out.append(" ".join(["C", "G" if q == "H" else q] + u[2:4] + [str(int(x) + off) for x in u[4:4 + d]]))
+            if u[0] == "C": out.append(" ".join(["C", q] + u[2:4] + [str(int(x) + off) for x in u[4:4 + d]]))
             elif u[0] == "p": out.append("p " + " ".join(str(int(x) + off) for x in u[1:]))
             else: out.append(l)
         return out
 
+def gen_hoy_neg(rng, big):
+    """HOY with negative coordinates around -1 (3-5 objectives: explicit call; 4 objectives: also through the front end):
+    split bounds (medians of coordinates) equal to -1, regions with lower corner -1"""
+    d = rng.choice([3, 4, 4, 4, 5]); n = rng.choice([3, 4, 5, 6, 8, 10, 14] + ([20, 30] if big else []))
+    if d == 5: n = min(n, 10)
+    lo = rng.choice([-2, -3, -4]); hi = rng.choice([-1, 0, 1])
+    P = [[rng.randint(lo, hi) for _ in range(d)] for _ in range(n)]
+    if rng.random() < 0.4:
+        for p in P: p[rng.randrange(d)] = -1
+    return case_lines("H", d, 0, [hi + rng.choice([0, 1, 1, 2]) for _ in range(d)], P)
+
 def gen_case(rng, big, kind=None):
-    kind = kind or rng.choice(["R", "R", "H", "H", "H", "K", "K", "S", "S", "D", "K3", "NEG"])
+    kind = kind or rng.choice(["R", "R", "H", "H", "H", "K", "K", "S", "S", "D", "K3", "NEG", "HOYNEG"])
     if kind == "D": return gen_dc(rng, big)
     if kind == "K3": return gen_k3(rng, big)
     if kind == "NEG": return gen_shifted(rng, big)
+    if kind == "HOYNEG": return gen_hoy_neg(rng, big)
     d, R = pick_dR(rng, big)
     if kind == "R":
         n = rng.choice([1, 2, 3, 5, 8, 13, 20, 30, 40] + ([60, 80] if big else []))
@@ -489,10 +500,13 @@ def main():
         out = []
         for c in dcases:
             kind = c[0].split()[1]
-            for _ in range(150): out.append(gen_case(ck.rng, big, {"N": "K", "G": "NEG"}.get(kind, kind)))
+            for _ in range(150): out.append(gen_case(ck.rng, big, {"N": "K", "G": "NEG"}.get(kind, kind) if not any(x.startswith("p ") and "-" in x for x in c) else ("HOYNEG" if kind in ("H", "G") else "NEG")))
         return out
     def keyfn(msg, case):
         q, d, k, ref, P, _ = parse_case(case)
+        if q in ("H", "K") and d >= 3 and any(x < 0 for p in P for x in p) and ("hoy" in msg or "disp" in msg or "crashed" in msg or "s_md" in msg or "l_md" in msg):
+            # HypervolumeCalculatorMDHOY with negative coordinates: the value -1.0 was the 'no bound yet' sentinel (fixed by 589fd5bd)
+            return "hoy-sentinel-minus-one %s d=%d n=%d: %s" % (q, d, len(P), msg)
         touch = q != "R" and any(x == r for p in P for x, r in zip(p, ref))
         return "%s d=%d n=%d%s: %s" % (q, d, len(P), " point-on-reference-boundary" if touch else "", msg)
     r = correspond(ck, main_cases, model, exe, monitor, tmpd, compare=compare, impl_env=env,
